@@ -9,6 +9,7 @@
      vardefault   query($v: t = <literal>) { f(arg: $v) } variables = {}
      omitted      { f }                                   (no argument; nothing to coerce)
      objvar       { f(arg: {y: 0, x: $w}) }  with $w: Int supplied (value) or not supplied (absent) - In-typed args only
+     listvar      query($w: Int) { f(arg: [0, $w]) }  for arg: [Int], with $w supplied (value) or not supplied (absent: the item is null)
      nullvar      query($v: Int) { g(arg: $v) }  for  g(arg: Int! = 3), variables = {v: null}: null must not reach a non-null arg
      argdef-nullvar / argdef-novar   query($v: Int) { g2(arg: $v) }  for  g2(arg: Int = 3): an explicit null variable gives null,
                   a variable without runtime value gives the argument default
@@ -84,17 +85,18 @@ Coerce(t, val) ==
   ELSE \* In
      IF val.k = "obj" THEN CoerceFields(val) ELSE Bad
 
-Routes == {"literal", "variable", "vardefault", "omitted", "objvar-given", "objvar-absent", "nullvar", "argdef-nullvar", "argdef-novar", "pertype"}
+Routes == {"literal", "variable", "vardefault", "omitted", "objvar-given", "objvar-absent", "listvar-given", "listvar-absent", "nullvar", "argdef-nullvar", "argdef-novar", "pertype"}
 VARIABLES ty, val, route
 vars == <<ty, val, route>>
 Init == /\ route \in Routes
         /\ ty \in (IF route \in {"objvar-given", "objvar-absent"} THEN {Named("In"), NN(Named("In"))}
+                   ELSE IF route \in {"listvar-given", "listvar-absent"} THEN {ListOf(Named("Int"))}
                    ELSE IF route = "nullvar" THEN {NN(Named("Int"))}
                    ELSE IF route \in {"argdef-nullvar", "argdef-novar", "pertype"} THEN {Named("Int")}
                    ELSE IF route = "omitted" THEN {t \in Types : t.k # "nn"}
                    ELSE Types)
-        /\ val \in (IF route \in {"objvar-given"} THEN {w \in Scalars : w.k \in {"int", "null"}}
-                    ELSE IF route \in {"objvar-absent", "nullvar", "omitted", "argdef-nullvar", "argdef-novar", "pertype"} THEN {[k |-> "null"]}
+        /\ val \in (IF route \in {"objvar-given", "listvar-given"} THEN {w \in Scalars : w.k \in {"int", "null"}}
+                    ELSE IF route \in {"objvar-absent", "listvar-absent", "nullvar", "omitted", "argdef-nullvar", "argdef-novar", "pertype"} THEN {[k |-> "null"]}
                     ELSE Values)
 Next == FALSE /\ UNCHANGED vars
 Spec == Init /\ [][Next]_vars
@@ -104,6 +106,8 @@ Expected ==
     [] route = "omitted" -> [ok |-> TRUE, v |-> [k |-> "absent"]]        \* optional argument without default is omitted
     [] route = "objvar-given" -> Coerce(ty, Obj(<<Y0, [key |-> "x", val |-> val]>>))
     [] route = "objvar-absent" -> Coerce(ty, Obj(<<Y0>>))                  \* the field's default (3) is used
+    [] route = "listvar-given" -> Coerce(ty, [k |-> "list", vs |-> <<[k |-> "int", v |-> "0"], val>>])
+    [] route = "listvar-absent" -> Ok([k |-> "list", vs |-> <<[k |-> "int", v |-> "0"], [k |-> "null"]>>])   \* a variable without value is null in a list
     [] route = "nullvar" -> Bad                                            \* null for a non-null argument is rejected
     [] route = "argdef-nullvar" -> Ok([k |-> "null"])
     [] route = "argdef-novar" -> Ok([k |-> "int", v |-> "3"])
